@@ -511,6 +511,13 @@ def Op.harmless (txAttrs : List String) (contained : Bool) : Op → Prop
   | .set _ => True
   | .del k => k ∉ txAttrs ∧ (k = "parent" → contained = false)
 
+/-- is the name `k` on the object after the operations of user code (`present`: was it there before):
+the last store / deletion of `k` decides -/
+def Op.alive (k : String) (present : Bool) (ops : List Op) : Bool :=
+  ops.foldl (fun b o => match o with
+    | .set x => b || x == k
+    | .del x => b && x != k) present
+
 end Kw
 
 end LoadTree
